@@ -8,7 +8,7 @@ from fractions import Fraction
 import numpy as np
 
 from ..leanio import ModelError
-from ..common import DataSet, gen_values, random_canon_tree, build_tree, extract, forest_size, forest_from_parents, fr
+from ..common import DataSet, gen_values, random_canon_tree, build_tree, extract, forest_size, forest_from_parents, all_canon_trees, fr
 from phyclone.process_trace import map as mapmod
 from phyclone.process_trace.utils import convert_rustworkx_to_networkx
 
@@ -16,7 +16,7 @@ ID = "C10"
 LEVEL = "proof"
 THEOREMS = ["traceback_feasible", "traceback_optimal", "value_eq_max", "clonalPrev_nonneg"]
 BUDGET = {"quick": 100, "thorough": 600}
-SEARCH_BUDGET = 60
+SEARCH_BUDGET = 30
 RULE = ("two styles of real trees, both run through get_map_node_ccfs_and_clonal_prev_dicts: (api) random forests built through "
         "the Tree API from dyadic data (1..7 clones quick / ..12 thorough, multi-mutation clones, outliers, 1-3 samples, grid 2..8 / "
         "..24), the model gets the exact rational value of every float log_p entry and objective values are compared to 1e-9; a "
@@ -26,7 +26,7 @@ RULE = ("two styles of real trees, both run through get_map_node_ccfs_and_clonal
         "are compared one-to-one with the model, children sent in the order graph.successors yields. Independently of the model "
         "every case is judged by a Python oracle: on-grid, child-sum and top-level constraints per sample, clonal prevalence = "
         "ccf - children's >= -1e-12, and the objective equals the maximum over an explicit enumeration of all feasible "
-        "assignments (when at most 150000 of them). A case is non-trivial when some clone has >= 2 children or the depth is >= 2; "
+        "assignments (when at most 150000 of them). Exhaustive sweeps: every log_p matrix with entries from a 2-3 value set on all labelled shapes of 2 clones (quick) / 2-3 clones (thorough), i.e. every tie pattern. A case is non-trivial when some clone or the virtual root has >= 2 children or the depth is >= 2; "
         "distinct by input digest.")
 TRUSTED = ["IEEE-754 arithmetic is outside the model: the clause 'clonal prevalence >= -1e-12' and the float comparisons of the "
            "dynamic programme are decided by the numerical comparison only (the model is exact on the same input numbers)",
@@ -112,6 +112,14 @@ def cases(tier, rnd):
         forest, outs = random_canon_tree(rnd, n, outliers=(i % 4 == 0))
         vals = [gen_values(rnd, S, G, bits=rnd.choice([2, 3, 5])) for _ in range(n)]
         out.append({"kind": "api", "data": DataSet(vals).to_json(), "forest": forest, "outs": outs, "table": i % 3 == 0})
+    # exhaustive tie patterns on the smallest shapes
+    def singles(n):
+        return [f for f, o in all_canon_trees(n) if forest_size(f) == n]
+
+    sweeps = [(2, 3, [-1, 0])] if quick else [(2, 3, [-2, -1, 0]), (2, 4, [-1, 0]), (3, 3, [-1, 0]), (3, 2, [-2, -1, 0])]
+    for n, G, levels in sweeps:
+        for f in singles(n):
+            out.append({"kind": "sweep", "forest": f, "G": G, "levels": levels})
     # requests the model must reject
     out.append({"kind": "malformed", "req": {"op": "map", "G": 3, "S": 1, "forest": [[[["0", "0"]], []]]}})
     out.append({"kind": "malformed", "req": {"op": "map", "G": 3, "S": 2, "forest": [[[["0", "0", "0"]], []]]}})
@@ -336,6 +344,18 @@ def check(ctx, case):
         ctx.corr_fail(case, "model accepted a malformed request", ans)
         ctx.done(case, nontrivial=False)
         return
+    if kind == "sweep":
+        # every matrix with entries from `levels` (in eighths) on this shape: all tie patterns
+        m, G = forest_size(case["forest"]), case["G"]
+        for combo in itertools.product(case["levels"], repeat=m * G):
+            lp = [[list(combo[j * G:(j + 1) * G])] for j in range(m)]
+            check_tree(ctx, {"kind": "exact", "forest": case["forest"], "S": 1, "G": G, "style": "sweep", "lp": lp})
+        return
+    check_tree(ctx, case)
+
+
+def check_tree(ctx, case):
+    kind = case["kind"]
     tree, S, G, ds = realise(case)
     if kind == "api":
         f2, o2 = extract(tree)
@@ -351,7 +371,7 @@ def check(ctx, case):
     ctx.stat(f"maxkids_{mk}")
     if kind == "exact":
         ctx.stat("style_" + case["style"])
-    nontrivial = inner >= 2 or d >= 2
+    nontrivial = mk >= 2 or d >= 2
     try:
         ccf, cp = run_code(tree)
     except Exception as e:
@@ -423,7 +443,7 @@ def check_table(ctx, case, tree, ds, ccf, cp):
 def oracle_only(case):
     """[(what, signature, detail)] of the property on the real code for one case, no model."""
     if case.get("kind") not in ("exact", "api"):
-        return []
+        return []  # sweeps are expanded into exact cases by check(); malformed requests never reach the code
     tree, S, G, _ = realise(case)
     try:
         ccf, cp = run_code(tree)
